@@ -230,7 +230,157 @@ def spec : Drv SSt where
       (s', out ++ specObs s' 0 false)
     | _, _ => (s, ["bad-op"])
 
+/-! ### `sum` mode (configuration-shape family)
+
+`sum <t0> <x|n> I <e:b:q>... B <e:a:v>...` : ONE `TradingSummaryGenerator` initialised from an `EngineState`
+over the listed spot instruments (label `k` = position in the line) and the assets they name (label `e:a`,
+numbered `a<j>` in order of first appearance); an asset with an entry in `B` holds the builder's balance
+`v` at `time_engine_start = t0` (fed through `update_from_balance` into a DEFAULT sheet), the others start
+from `default()`. `x` / `n`: updates addressed by index / by name (irrelevant to the drawdowns).
+Then `bal e:a v t [f]` (balance snapshot of one asset), `cls k d t [te]` (closed position of one
+instrument), `gen [d|a252|a365]`, `gen! [..]` (generate of the whole summary on a clone / itself).
+Every key is an independent copy of the single-sheet drivers above: after every op the block of every key
+is printed, each line prefixed `a<j>.` / `i<k>.`. -/
+
+structure SumSt (σ : Type) where
+  on : Bool
+  base : σ
+  assets : List (String × σ)
+  instrs : List σ
+
+def pre (p : String) (ls : List String) : List String := ls.map fun l => p ++ "." ++ l
+
+def parseTriple (s : String) : Option (Nat × Nat × String) :=
+  match s.splitOn ":" with
+  | [e, a, v] =>
+    match e.toNat?, a.toNat? with
+    | some e, some a => some (e, a, v)
+    | _, _ => none
+  | _ => none
+
+def addNew (l : List String) (x : String) : List String := if l.contains x then l else l ++ [x]
+
+/-- asset labels in order of first appearance; `none` when an instrument token is malformed -/
+def sumAssets : List String → Option (List String)
+  | [] => some []
+  | t :: ts =>
+    match parseTriple t with
+    | some (e, b, q) =>
+      match q.toNat? with
+      | some q =>
+        if e ≥ 5 || b == q then none else
+        match sumAssets ts with
+        | some rest =>
+          let l := addNew (addNew [] s!"{e}:{b}") s!"{e}:{q}"
+          some (l ++ rest.filter fun x => !l.contains x)
+        | none => none
+      | none => none
+    | none => none
+
+/-- the `B` entries: label, value; each asset known, at most once, value a decimal -/
+def sumInits (assets : List String) : List String → Option (List (String × String))
+  | [] => some []
+  | t :: ts =>
+    match parseTriple t with
+    | some (e, a, v) =>
+      match sumInits assets ts, parseRat? v with
+      | some rest, some _ =>
+        let l := s!"{e}:{a}"
+        if assets.contains l && !(rest.any fun x => x.1 == l) then some ((l, v) :: rest) else none
+      | _, _ => none
+    | none => none
+
+structure SumCfg where
+  t0 : String
+  assets : List String
+  ninstr : Nat
+  inits : List (String × String)
+
+def parseSum : List String → Option SumCfg
+  | t0 :: km :: "I" :: rest =>
+    if (parseInt? t0).isNone || !(km == "x" || km == "n") then none else
+    let insts := rest.takeWhile (· != "B")
+    match rest.dropWhile (· != "B") with
+    | "B" :: bals =>
+      if insts.isEmpty || insts.length > 8 then none else
+      match sumAssets insts with
+      | some assets =>
+        match sumInits assets bals with
+        | some inits => some ⟨t0, assets, insts.length, inits⟩
+        | none => none
+      | none => none
+    | _ => none
+  | _ => none
+
+def ivOk : List String → Bool
+  | [] | ["d"] | ["a252"] | ["a365"] => true
+  | _ => false
+
+/-- lift a single-sheet driver `d` to the multi-key mode: `mkAsset` / `mkInstr` are the states of a fresh
+asset / instrument key, `obs` the observation block of a key outside its own update. -/
+def liftSum {σ : Type} (d : Drv σ) (mkAsset mkInstr : σ) (obs : σ → List String) : Drv (SumSt σ) where
+  init := ⟨false, d.init, [], []⟩
+  step s toks :=
+    let all (s : SumSt σ) : List String :=
+      (s.assets.zipIdx.flatMap fun (a, j) => pre s!"a{j}" (obs a.2)) ++
+      (s.instrs.zipIdx.flatMap fun (i, k) => pre s!"i{k}" (obs i))
+    if !s.on then
+      match toks with
+      | "sum" :: rest =>
+        match parseSum rest with
+        | some c =>
+          let assets := c.assets.map fun l =>
+            match c.inits.find? (·.1 == l) with
+            | some (_, v) => (l, (d.step mkAsset ["pt", v, c.t0]).1)
+            | none => (l, mkAsset)
+          let s' : SumSt σ := ⟨true, s.base, assets, List.replicate c.ninstr mkInstr⟩
+          (s', all s')
+        | none => (s, ["bad-op"])
+      | _ =>
+        let (b, o) := d.step s.base toks
+        ({ s with base := b }, o)
+    else
+      let bal (l v t : String) (f : Option String) : SumSt σ × List String :=
+        if !(s.assets.any (·.1 == l)) || (parseRat? v).isNone || (parseInt? t).isNone
+            || (match f with | some f => (parseRat? f).isNone | none => false) then (s, ["bad-op"]) else
+        let s' := { s with assets := s.assets.map fun a => if a.1 == l then (a.1, (d.step a.2 ["pt", v, t]).1) else a }
+        (s', all s')
+      let cls (k v t : String) (te : Option String) : SumSt σ × List String :=
+        match k.toNat? with
+        | some k =>
+          if k ≥ s.instrs.length || (parseRat? v).isNone || (parseInt? t).isNone
+              || (match te with | some x => (parseInt? x).isNone | none => false) then (s, ["bad-op"]) else
+          let s' := { s with instrs := s.instrs.zipIdx.map fun (i, n) => if n == k then (d.step i ["pos", v, t]).1 else i }
+          (s', all s')
+        | none => (s, ["bad-op"])
+      match toks with
+      | ["bal", l, v, t] => bal l v t none
+      | ["bal", l, v, t, f] => bal l v t (some f)
+      | ["cls", k, v, t] => cls k v t none
+      | ["cls", k, v, t, te] => cls k v t (some te)
+      | "gen" :: iv =>
+        if !ivOk iv then (s, ["bad-op"]) else
+        (s, (s.assets.zipIdx.flatMap fun (a, j) => pre s!"a{j}" (d.step a.2 ["gen"]).2) ++
+            (s.instrs.zipIdx.flatMap fun (i, k) => pre s!"i{k}" (d.step i ["gen"]).2))
+      | "gen!" :: iv =>
+        if !ivOk iv then (s, ["bad-op"]) else
+        -- the report of every key first, then every key's sheet after the mutating generate
+        let ra := s.assets.map fun a => (a.1, d.step a.2 ["gen!"])
+        let ri := s.instrs.map fun i => d.step i ["gen!"]
+        let s' := { s with assets := ra.map fun a => (a.1, a.2.1), instrs := ri.map (·.1) }
+        let rep (o : List String) : List String := o.filter (·.startsWith "g_")
+        (s', (ra.zipIdx.flatMap fun (a, j) => pre s!"a{j}" (rep a.2.2)) ++
+             (ri.zipIdx.flatMap fun (i, k) => pre s!"i{k}" (rep i.2)) ++ all s')
+      | _ => (s, ["bad-op"])
+
+def modelSum : Drv (SumSt MSt) :=
+  liftSum model ⟨.asset, 0, Sheet.default⟩ ⟨.instr, InstrSheet.init.pnlRaw, InstrSheet.init.sheet⟩
+    (fun m => obsSheet m.sheet)
+
+def specSum : Drv (SumSt SSt) :=
+  liftSum spec ⟨.asset, 0, [], false⟩ ⟨.instr, 0, [], false⟩ (fun s => specObs s 0 false)
+
 end BarterModel.Driver.C18
 
 def main (args : List String) : IO UInt32 :=
-  BarterModel.Driver.runMain BarterModel.Driver.C18.model BarterModel.Driver.C18.spec args
+  BarterModel.Driver.runMain BarterModel.Driver.C18.modelSum BarterModel.Driver.C18.specSum args
